@@ -136,6 +136,26 @@ def check_thin(rep, sc, threads, rng, idx, tier):
             rep.mismatch({"module": "MapMachine", "field": d.split(":")[0], "kind": "thin"}, f"{describe(sc, kw)} threads={t}: {d}", case={"sc": sc, "idx": idx}, module="maps")
             return
         rep.validated()
+    # two derived (unnamed) quantities next to the named one: every layer shows its own values
+    if idx % 6 == 1 and not all_masked and not nan_ids:
+        rep.case(klass=("thin-unnamed-layers", idx % 211, nx, ny))
+        Layer = osyris.core.layer.Layer
+        try:
+            q = call_map(dg, [dg.layer("density"), Layer(dg["density"] * 2.0), Layer(dg["density"] * 4.0 + osyris.Array(1.0, unit="g/cm**3"))],
+                         dict(kw, resolution=dict(kw["resolution"]) if isinstance(kw["resolution"], dict) else kw["resolution"]))
+            d0, d1, d2 = (np.ma.filled(np.ma.masked_invalid(l["data"]), np.nan) for l in q.layers)
+            ok = np.isfinite(d0)
+            if not (np.allclose(d1[ok], 2.0 * d0[ok], rtol=1e-12) and np.allclose(d2[ok], 4.0 * d0[ok] + 1.0, rtol=1e-12) and np.array_equal(np.isfinite(d1), ok) and np.array_equal(np.isfinite(d2), ok)):
+                bad = np.argwhere(ok & ~(np.isclose(d1, 2.0 * d0) & np.isclose(d2, 4.0 * d0 + 1.0)))
+                j0, i0 = (bad[0] if len(bad) else (0, 0))
+                rep.mismatch({"module": "MapMachine", "field": "pixel", "kind": "thin-unnamed"},
+                             f"{describe(sc, kw)}: layers density, 2*density, 4*density+1 show {d0[j0, i0]!r}, {d1[j0, i0]!r}, {d2[j0, i0]!r} at pixel ({i0},{j0})", case={"sc": sc, "idx": idx}, module="maps")
+            else:
+                rep.validated()
+        except RuntimeError:
+            rep.validated()
+        except Exception as e:
+            rep.mismatch({"module": "MapMachine", "field": "raises", "kind": "thin-unnamed"}, f"{describe(sc, kw)}: map of unnamed layers raised {type(e).__name__}: {e}", case={"sc": sc, "idx": idx}, module="maps")
     # an integer layer mapped alone (no float layer to promote the buffer): uncovered pixels must still be masked
     if idx % 3 == 0 and (ids == -1).any() and not all_masked:
         rep.case(klass=("thin-int-only", idx % 211, nx, ny))
@@ -627,7 +647,8 @@ def check_thick_omitted(rep, sc, rng, idx, threads):
     dz = [0.09, 0.21, 0.33, 0.6][(idx // 9) % 4] * lbox
     op = OPS[idx % len(OPS)]
     origin = [sc["origin"][d] * f for d in range(3)]
-    kw = {"origin": osyris.Vector(*origin, unit="cm"), "resolution": {"x": nx, "y": nx, "z": nz}, "direction": osyris.Vector(*nrm),
+    default_nz = idx % 2 == 1          # no depth resolution given: as many samples as make the step closest to the pixel size
+    kw = {"origin": osyris.Vector(*origin, unit="cm"), "resolution": {"x": nx, "y": nx} if default_nz else {"x": nx, "y": nx, "z": nz}, "direction": osyris.Vector(*nrm),
           "dz": dz * osyris.units("cm"), "operation": op}
     numba.set_num_threads(threads[idx % len(threads)])
     rep.case(klass=("thick-omitted-window", idx % 211, nrm, nx, nz, dz, op))
@@ -642,6 +663,12 @@ def check_thick_omitted(rep, sc, rng, idx, threads):
             return
         rep.mismatch({"module": "MapMachine", "field": "raises", "kind": "thick-omitted"}, f"{what}: {e}", case={"sc": sc, "idx": idx}, module="maps")
         return
+    except ZeroDivisionError as e:
+        if default_nz:
+            rep.validated()          # a slab thinner than half a pixel without a depth resolution: outside "dz from one pixel to the domain size"
+            return
+        rep.mismatch({"module": "MapMachine", "field": "raises", "kind": "thick-omitted"}, f"{what}: map raised {type(e).__name__}: {e}", case={"sc": sc, "idx": idx}, module="maps")
+        return
     except Exception as e:
         rep.mismatch({"module": "MapMachine", "field": "raises", "kind": "thick-omitted"}, f"{what}: map raised {type(e).__name__}: {e}", case={"sc": sc, "idx": idx}, module="maps")
         return
@@ -655,6 +682,13 @@ def check_thick_omitted(rep, sc, rng, idx, threads):
     except Exception:
         rep.mismatch({"module": "MapMachine", "field": "unit", "kind": "thick-omitted"}, f"{what}: unit {lay['unit']} is not the layer unit{' times a length' if summing else ''}", case={"sc": sc, "idx": idx}, module="maps")
         return
+    if default_nz:
+        px, py = np.asarray(p.x), np.asarray(p.y)
+        pix = 0.5 * (float(px[1] - px[0]) + float(py[1] - py[0]))
+        nz = int(round(dz / pix))
+        if nz < 1 or abs(dz / pix - round(dz / pix)) > 0.45:
+            rep.validated()          # a slab thinner than a pixel, or a ratio too close to a half-integer to name the count
+            return
     step = dz / nz
     zs = [-dz / 2 + (k + 0.5) * step for k in range(nz)]
     for j, y in enumerate(np.asarray(p.y)):
